@@ -1,12 +1,13 @@
 #!/bin/sh
 # Build the framework from files on disk only (offline).
 set -e
-cd /verif
+cd "$(dirname "$0")"
+ROOT=$(pwd)
 export GOFLAGS=-mod=mod GOPROXY=off GOSUMDB=off GOTOOLCHAIN=local
 sh coq/build.sh
-python3 - <<'PY'
-import sys
-sys.path.insert(0, '/verif/lib')
+ROOT="$ROOT" python3 - <<'PY'
+import os, sys
+sys.path.insert(0, os.path.join(os.environ['ROOT'], 'lib'))
 import runner, props
 ok, exe, log = runner.build_harness()
 print('harness', ok)
@@ -17,4 +18,9 @@ for p in sorted(props.PROPS):
     print('model', p, ok)
     if not ok:
         print(log); sys.exit(1)
+    if props.PROPS[p].get('race'):
+        ok, exe, log = runner.build_harness(race=True)
+        print('harness-race', ok)
+        if not ok:
+            print(log); sys.exit(1)
 PY
